@@ -234,6 +234,133 @@ def c04(ctx):
     ctx.cov["samples"] = samples([c for c in cases if c["binds"]] or cases)
 
 
+# ------------------------------------------------------------------------------------ C06
+
+def known_for(prop):
+    return [f for f in props.load_known().get("findings", []) if f.get("property") == prop]
+
+
+@check("C06")
+def c06(ctx):
+    props.check_props_file(ctx, "Props/C06.v")
+    maxlen = 3 if ctx.quick() else 5
+    nrand = 400 if ctx.quick() else 20000
+    os.makedirs(build.WORK, exist_ok=True)
+    out = os.path.join(build.WORK, f"c06-{os.getpid()}.jsonl")
+    rc, o, _ = build.sh([os.path.join(build.BIN, "harness"), "-mode", "c06", "-seed", str(ctx.seed), "-maxlen", str(maxlen),
+                         "-n", str(nrand), "-out", out], timeout=3000)
+    cases = [json.loads(l) for l in open(out)]
+    os.unlink(out)
+    if rc != 0:
+        ctx.obligation("harness run (c06 mode)", False, o[-2000:])
+    # the model renders the same text (ties quote_lit / z_dec / compile to the code)
+    reqs = [f"(render T {corr.tf(c.get('pretty', False))} nil {c['dump']})" for c in cases]
+    answers = corr.model_answers(reqs)
+    mism = []
+    for c, a in zip(cases, answers):
+        if c.get("panic"):
+            continue
+        if not a.startswith("OK s") or a.split(" ")[1][1:] != c["sql"]:
+            mism.append({"ctx": c["ctx"], "kind": c["kind"], "s": c["s"], "impl": c["sql"], "model": a[:400]})
+    ctx.obligation("correspondence: model and implementation render every literal case byte for byte", not mism,
+                   json.dumps(mism[:3]))
+    ctx.cov["traces_validated_against_impl"] = len(cases) - len(mism)
+    zz = "S" + b"zz".hex()
+    known_nul = False
+    ev = 0
+    kinds, ctxs, lens = Counter(), Counter(), Counter()
+    distinct = set()
+    for scs in (True, False):
+        t_sql = lex_many([bytes.fromhex(c["sql"]) for c in cases], scs)
+        t_ref = lex_many([bytes.fromhex(c["ref"]) for c in cases], scs)
+        for c, ts, tr in zip(cases, t_sql, t_ref):
+            ev += 1
+            kinds[c["kind"]] += 1
+            ctxs[c["ctx"]] += 1
+            rep = {"context": c["ctx"], "kind": c["kind"], "value": c["s"], "standard_conforming_strings": scs,
+                   "sql": bytes.fromhex(c["sql"]).decode("utf8", "replace"), "err": c.get("err"), "panic": c.get("panic")}
+            if c.get("panic") or c.get("err"):
+                ctx.violation("rendering a literal failed", rep)
+                continue
+            if tr is None:
+                ctx.obligation("reference rendering lexes", False, json.dumps(rep))
+                continue
+            if c["kind"] in ("string", "rune"):
+                lens[len(c["s"]) // 2] += 1
+                reftok = zz if c["kind"] == "string" else "S7a"
+                want = [("S" + c["s"]) if t == reftok else t for t in tr]
+                ok = ts == want
+                if not ok and "00" in [c["s"][i:i + 2] for i in range(0, len(c["s"]), 2)]:
+                    known_nul = known_nul or rep
+                    continue
+            elif c["kind"] == "int":
+                z = int(c["s"])
+                digits = "N" + str(abs(z)).encode().hex()
+                lit = (["C2d"] if z < 0 else []) + [digits]
+                want = [x for t in tr for x in (lit if t == "N37" else [t])]
+                ok = ts == want
+            elif c["kind"] == "float":
+                import struct
+                f = struct.unpack("<d", struct.pack("<Q", int(c["s"])))[0]
+                # read the constant back: it must be a (signed) numeric constant equal to the Go value
+                ok = ts is not None and len(ts) >= len(tr)
+                if ok:
+                    k = len(ts) - len(tr)      # 0 or 1 extra token (the sign) per occurrence is handled below
+                    want, i, ok2 = [], 0, True
+                    for t in tr:
+                        if t == "N37":
+                            neg = False
+                            if i < len(ts) and ts[i] == "C2d":
+                                neg, i = True, i + 1
+                            if i >= len(ts) or ts[i][0] != "N":
+                                ok2 = False
+                                break
+                            txt = bytes.fromhex(ts[i][1:]).decode()
+                            val = float(txt) * (-1.0 if neg else 1.0)
+                            if struct.pack("<d", val) != struct.pack("<d", f) and not (val == f == 0.0):
+                                ok2 = False
+                                break
+                            i += 1
+                        else:
+                            if i >= len(ts) or ts[i] != t:
+                                ok2 = False
+                                break
+                            i += 1
+                    ok = ok2 and i == len(ts)
+            else:
+                want = [("W" + c["s"].encode().hex()) if t in ("W" + b"true".hex(), "W" + b"false".hex()) else t for t in tr]
+                ok = ts == want
+            if not ok:
+                rep["tokens"] = ts
+                rep["expected_from_reference"] = tr
+                ctx.violation("the literal is not emitted as exactly one constant with its value", rep)
+            else:
+                distinct.add((c["kind"], c["s"], c["ctx"]))
+    if known_nul:
+        kf = [k for k in known_for("C06") if k["id"] == "D9-literal-NUL"]
+        if kf:
+            ctx.known.append(f"D9-literal-NUL a string containing a NUL byte is not carried as one literal "
+                             f"(e.g. context {known_nul['context']}, value hex {known_nul['value']})")
+        else:
+            ctx.violation("a string containing NUL is not emitted as one string constant", known_nul)
+    ctx.cov["evaluations"] = ev
+    ctx.cov["distinct_nontrivial"] = len(distinct)
+    ctx.cov["exhaustive"] = False
+    ctx.cov["exhaustive_part"] = f"all strings of length <= {maxlen} over the 12-byte critical alphabet; every context for length <= 2"
+    ctx.cov["input_distribution"] = {"kinds": dict(kinds), "contexts": dict(ctxs),
+                                     "string_length": {str(k): v for k, v in sorted(lens.items())}}
+    ctx.cov["rule"] = ("exhaustive strings over {' \\ a E $ - / * LF NUL 0xC3 0xA9} + random long strings (invalid UTF-8 incl.) x "
+                       "27 literal contexts, ints incl. min/max, floats incl. subnormals and random bit patterns, bools, ESCAPE "
+                       "runes; each statement is lexed (both standard_conforming_strings settings) and compared with the token "
+                       "stream of the same statement holding a reference literal; distinct = (kind, value, context)")
+    ctx.cov["samples"] = [{"context": c["ctx"], "value_hex": c["s"], "sql": bytes.fromhex(c["sql"]).decode("utf8", "replace")}
+                          for c in cases[200:203]]
+    ctx.assumptions.append("partial for floats: strconv.FormatFloat is an oracle; its output is read back with Python's "
+                           "correctly rounded float() and compared bit for bit")
+    ctx.assumptions.append("the context condition of C06_string (what precedes / follows a literal) is evaluated on every "
+                           "generated statement, not yet proved for all statements")
+
+
 # ------------------------------------------------------------------------------------ C14
 
 VALIDATION_PREFIXES = ("identifier: invalid", "type: invalid", "case: no conditions given")
